@@ -308,6 +308,11 @@ func (fs *frRefFS) ReadFile(ctx context.Context, op *fuseops.ReadFileOp) error {
 // ---------------------------------------------------------------- one behaviour
 
 type frRun struct {
+	walks int
+	// the file handle of the previous read is released only after the next read: two files are open at once
+	pendingIno    fuseops.InodeID
+	pendingHandle fuseops.HandleID
+	pendingOpen   bool
 	r        *vutil.BehResult
 	beh      int
 	step     int
@@ -370,6 +375,19 @@ func (m *frRun) walk(p []string) (fuseops.InodeID, bool) {
 			m.bad("fusero/lookup-missing", "found", err.Error(),
 				fmt.Sprintf("resolving %q: lookup of %q under %q fails although the bundle implies it", frKey(p), p[i], frKey(p[:i])))
 			return 0, false
+		}
+		// the kernel may forget an inode at any time and look the name up again: every third resolution does
+		m.walks++
+		if m.walks%3 == 0 {
+			_ = m.fsys.ForgetInode(context.Background(), &fuseops.ForgetInodeOp{Inode: op.Entry.Child, N: 1})
+			m.r.Extra["forget_then_lookup"]++
+			op2 := &fuseops.LookUpInodeOp{Parent: cur, Name: p[i]}
+			if err := m.fsys.LookUpInode(context.Background(), op2); err != nil {
+				m.bad("fusero/lookup-missing", "found", err.Error(),
+					fmt.Sprintf("resolving %q: second lookup of %q (after the kernel forgot the inode) fails", frKey(p), p[i]))
+				return 0, false
+			}
+			op = op2
 		}
 		m.learn(k, op.Entry.Child)
 		cur = op.Entry.Child
@@ -647,7 +665,10 @@ func (m *frRun) doRead(st frStep) {
 		return
 	}
 	defer func() {
-		_ = m.fsys.ReleaseFileHandle(context.Background(), &fuseops.ReleaseFileHandleOp{Handle: oo.Handle})
+		if m.pendingOpen {
+			_ = m.fsys.ReleaseFileHandle(context.Background(), &fuseops.ReleaseFileHandleOp{Handle: m.pendingHandle})
+		}
+		m.pendingIno, m.pendingHandle, m.pendingOpen = ino, oo.Handle, true
 	}()
 	op := &fuseops.ReadFileOp{Inode: ino, Handle: oo.Handle, Offset: offB, Size: endB - offB, Dst: make([]byte, endB-offB)}
 	m.r.Extra["reads"]++
